@@ -259,6 +259,19 @@ def mkSystem (net : Network) (space : Space) (sysUnits : Sys) : Res System :=
     | .error e => .error e
     | .ok c => .ok ⟨net, space, sysUnits, st, c⟩
 
+/-- `network.species = [network.species[i] for i in order]` : the public setter replaces the list (nothing else is kept
+about the previous one); the arrays of a system that holds the network are left as they are until regenerated -/
+def System.assignSpeciesOrder (s : System) (order : List Nat) : Res System :=
+  match seqRes (order.map fun i => match s.net.species[i]? with
+      | some sp => (.ok sp : Res Species)
+      | none => .error .outOfRange) with
+  | .error e => .error e
+  | .ok l => .ok { s with net := { s.net with species := l } }
+
+/-- `network.environments = envs` -/
+def System.assignEnvs (s : System) (envs : List String) : System :=
+  { s with net := { s.net with envs := envs } }
+
 /-- how a species is named in an accessor call -/
 inductive SpRef where
   | idx (i : Int)
